@@ -144,7 +144,7 @@ fn offsets(n: i32, rng: &mut Rng, nrand: usize, out: &mut Vec<i64>) {
 
 pub fn run(ctx: &Ctx, st: &mut Stats) {
     cal();
-    let stride = ctx.tier.pick(7919, 7, 1);
+    let stride = ctx.tier.pick(7919, 11, 1);
     let nrand = ctx.tier.pick(2, 16, 64);
     // Date: all dates (quick: every `stride`-th day plus every 28th..31st) x offsets
     ctx.par(st, "Date: dates x month-offsets", true, 0, N_DAYS as i64, |st, i, rng| {
